@@ -303,6 +303,27 @@ SPECS["C03"] = dict(
     ],
 )
 
+SPECS["C14"] = dict(
+    title="concurrent use of sessions and listeners is free of data races",
+    level="exploration",
+    technique="generated concurrent API programs (seeded) over real sessions/listener in real time with the genuine scheduler, built with -race; the Go race detector is the oracle, co-scheduled method-pair coverage is measured",
+    level_text="TODO",
+    level_note="TODO",
+    design_ref="5/C14",
+    rule="TODO",
+    width={Q: 2, T: 8},
+    jobs=[
+        plain("TestC14Race", sq=2, st=8, race=True, env={"C14_SECONDS": {Q: 20, T: 600}, "GORACE": "halt_on_error=0"}, timeout={Q: 600, T: 3000}),
+    ],
+)
+
+from spec_texts import TEXTS  # noqa: E402
+for _pid, _t in TEXTS.items():
+    if _pid in SPECS:
+        for _k, _v in _t.items():
+            if _v is not None:
+                SPECS[_pid][_k] = _v
+
 NOTES = ("Every check is `./check <id> quick|thorough`; it rebuilds the harness against /repo's working tree with -tags verif, "
          "runs rapid / enumeration jobs in parallel shards seeded from VERIF_SEED, writes evidence/<id>.json, prints "
          "KNOWN-FINDING lines for entries of known_findings.jsonl that still reproduce, and exits 1 with a VIOLATION line otherwise. "
